@@ -280,6 +280,12 @@ def r03_7(ctx):
             elif ok:
                 ok = not any(is_call(y, 'Output::value') for y in walk(parts[0]))
             ctx.check(R, ok, 'collect:' + f.path, '%s must keep (%s) of the item just streamed: %s' % (n, ', '.join(want[n]), fmt(v)[:80]), fn=f)
+            if 'str' in n and want[n][0] == 'key':
+                # the string collectors hand back the key itself or fail: a lossy decoder rewrites keys that are not UTF-8 into keys that
+                # were never inserted (and makes distinct keys collide)
+                lossy = [y for y in walk(parts[0]) if y[0] == 'call' and isinstance(y[1], str) and ('from_utf8_lossy' in y[1] or 'from_utf8_unchecked' in y[1])]
+                ctx.check(R, not lossy, 'lossless:' + f.path, '%s decodes the key with %s: keys that are not valid UTF-8 come back altered (or as invalid strings) instead of as an error' % (
+                    n, lossy[0][1].rsplit('::', 1)[-1] if lossy else ''), fn=f)
         if k == 0:
             ctx.undecided(R, 'collect:' + f.path, 'no draining iteration recognised', fn=f)
 
